@@ -165,11 +165,11 @@ type quantizer struct {
 	idxProv  bool // describe range induction variables as idx(collection) and slices.Index as indexof(c, x)
 	seeInts  bool // see through in-module helpers for integer-typed results only (matcher algebra)
 	retDepth int
-	p       *Prog
-	nloops  int
-	elemVar map[ssa.Value]string // loaded range element -> bound variable
-	depth   int
-	notes   []string
+	p        *Prog
+	nloops   int
+	elemVar  map[ssa.Value]string // loaded range element -> bound variable
+	depth    int
+	notes    []string
 }
 
 // prov: canonical, position-free description of where a value comes from.
